@@ -198,6 +198,7 @@ func c16TrackScenarios() []c16TrackScenario {
 		{WaiterGroups: []int{0, 1}, Ops: []c16TrackOp{A(0, 1), A(1, 1), U(1, 2)}},
 		{WaiterGroups: []int{0}, Ops: []c16TrackOp{A(0, 1), U(1, 2), A(0, 2)}, Updaters: 2},
 		{WaiterGroups: []int{0, 0}, Ops: []c16TrackOp{A(0, 1), A(0, 2), U(1, 2)}},
+		{WaiterGroups: []int{0, 0}, Ops: []c16TrackOp{A(0, 1), U(1, 2)}, Cancel: true}, // one of two waiters of a still empty group gives up
 		// two updaters, each changing the status of one peer; the two peers share two groups
 		{WaiterGroups: []int{0}, Ops: []c16TrackOp{A(0, 1), A(1, 2), A(1, 1), A(0, 2), U(1, 2), U(2, 2)}, Updaters: 2},
 		{WaiterGroups: []int{}, Ops: []c16TrackOp{A(0, 1), A(0, 2), A(1, 1), A(1, 2), U(1, 2), U(2, 2)}, Updaters: 2},
